@@ -1,6 +1,8 @@
 import JominiModel.Model.Writer
 import JominiModel.Spec.Writer
 import JominiModel.Proofs.Writer
+import JominiModel.Spec.WriterFlat
+import JominiModel.Proofs.WriterFlat
 /-
 C14 — Writing a parsed tape and re-parsing reproduces the same structure; writing is idempotent.
 Only property theorems live here; helper lemmas are in `Proofs/Writer.lean`.
@@ -60,8 +62,78 @@ example :
       = some [97, 61, 123, 10, 9, 49, 10, 125] := by
   constructor <;> decide +kernel
 
+/-- what `write_tape` writes for the tape of a flat document (root-level `key op value` fields,
+quoted and unquoted scalars, any operator), under EVERY indent configuration: one
+`key<sep>value` line per field, `=` glued, other operators with one space on both sides. -/
+theorem C14_write_flat (doc : List FItem) (c : UInt8) (f : Nat) :
+    ∃ s, writeTape (tapeOfFlat doc) (State.init c f) = .ok s ∧ s.out = flatOut doc true :=
+  writeTape_flat doc c f
+
+/-- `C14_roundtrip` for flat documents, end to end through the two models (tape parser model of the
+text-tape slice → `writeTape` → tape parser model): take any flat document under any valid
+layout (`ValidFlat`: arbitrary blanks and comments in every gap, all eight operators, quoted
+scalars with escapes, unquoted scalars), parse it, write the tape under any indent byte and
+factor, parse what was written: the second tape equals the first modulo the positions of the
+scalars (same keys, operators, scalar bytes, quotedness, order).
+`hb'`: the written text must not begin with the three BOM bytes — i.e. the first key is not an
+unquoted scalar starting with EF BB BF (such a key survives the first parse only when blanks
+precede it; written first in the file it is taken for a BOM: ` \xEF\xBB\xBFa=b` is a real,
+if exotic, input that does not round-trip). -/
+theorem C14_roundtrip_flat (fs : List TextTape.LField) (gt : Bytes) (c : UInt8) (f : Nat)
+    (hv : TextTape.ValidFlat fs gt) (hb : TextTape.hasBom (TextTape.renderFlat fs gt) = false)
+    (hb' : TextTape.hasBom (flatOut (fs.map fun l => ⟨l.key, l.op, l.val⟩) true) = false) :
+    ∃ T₀ s T, TextTape.parse (TextTape.renderFlat fs gt) = .ok T₀ false ∧
+      writeTape (T₀.map ofTT) (State.init c f) = .ok s ∧
+      TextTape.parse s.out = .ok T false ∧
+      T.map TextTape.Tok.erase = T₀.map TextTape.Tok.erase := by
+  obtain ⟨T₀, hp0, he0⟩ := TextTape.faithful_flat fs gt hv hb
+  let doc : List FItem := fs.map fun l => ⟨l.key, l.op, l.val⟩
+  have hdoc : doc.map FItem.content = fs.map TextTape.LField.content := by
+    simp [doc, List.map_map, Function.comp_def, FItem.content, TextTape.LField.content]
+  have htape : T₀.map ofTT = tapeOfFlat doc := by
+    rw [← map_ofTT_erase, he0, tapeOfFlat, hdoc]
+  have hvalid : ∀ it ∈ doc, it.key.Valid ∧ it.val.Valid := by
+    have key : ∀ (fs : List TextTape.LField) (gt : Bytes), TextTape.ValidFlat fs gt →
+        ∀ l ∈ fs, l.key.Valid ∧ l.val.Valid := by
+      intro fs
+      induction fs with
+      | nil => intro _ _ l hl; simp at hl
+      | cons a r ih =>
+        intro gt h l hl
+        obtain ⟨_, _, _, hk, hvl, _, _, hr⟩ := h
+        rcases List.mem_cons.1 hl with rfl | hl
+        · exact ⟨hk, hvl⟩
+        · exact ih gt hr l hl
+    intro it hit
+    obtain ⟨l, hl, rfl⟩ := List.mem_map.1 hit
+    exact key fs gt hv l hl
+  obtain ⟨s, hw, hout⟩ := writeTape_flat doc c f
+  obtain ⟨T, hp, he⟩ := parse_flatOut doc hvalid hb'
+  refine ⟨T₀, s, T, hp0, by rw [htape]; exact hw, by rw [hout]; exact hp, ?_⟩
+  rw [he, he0, hdoc]
+
+/-- and the fixed point for flat documents: writing the re-parsed tape gives the same bytes -/
+theorem C14_idempotent_flat (fs : List TextTape.LField) (gt : Bytes) (c : UInt8) (f : Nat)
+    (hv : TextTape.ValidFlat fs gt) (hb : TextTape.hasBom (TextTape.renderFlat fs gt) = false)
+    (hb' : TextTape.hasBom (flatOut (fs.map fun l => ⟨l.key, l.op, l.val⟩) true) = false) :
+    ∃ T₀ s T, TextTape.parse (TextTape.renderFlat fs gt) = .ok T₀ false ∧
+      writeTape (T₀.map ofTT) (State.init c f) = .ok s ∧
+      TextTape.parse s.out = .ok T false ∧
+      writeTape (T.map ofTT) (State.init c f) = .ok s := by
+  obtain ⟨T₀, s, T, h0, hw, hp, he⟩ := C14_roundtrip_flat fs gt c f hv hb hb'
+  refine ⟨T₀, s, T, h0, hw, hp, ?_⟩
+  rw [← map_ofTT_erase, he, map_ofTT_erase]; exact hw
+
+/-- `a ?= "b\"c"` with a comment in a gap (the text-tape slice's example document), written with
+tab × 3: hypotheses hold; the round trip computed by the two models -/
+example : ∃ T₀ s T, TextTape.parse (TextTape.renderFlat TextTape.exampleFlat [10]) = .ok T₀ false ∧
+    writeTape (T₀.map ofTT) (State.init 9 3) = .ok s ∧ TextTape.parse s.out = .ok T false ∧
+    T.map TextTape.Tok.erase = T₀.map TextTape.Tok.erase :=
+  C14_roundtrip_flat _ _ 9 3 TextTape.exampleFlat_valid.1 TextTape.exampleFlat_valid.2 (by decide +kernel)
+
 /-
-Growth theorem, NOT proved (full statement kept):
+Growth theorem, NOT proved beyond flat documents (full statement kept; `C14_roundtrip_flat` is its
+flat instance):
 
   theorem C14_roundtrip (doc : Doc) (h : RoundTrippable doc) (layout : Layout) (c : UInt8) (f : Nat)
       (hc : c = 32 ∨ c = 9) (hf : f ≤ 9) :
